@@ -351,7 +351,8 @@ impl World for ChunkWorld {
     type Event = Event;
 
     fn gen_config(rng: &mut Rng, prop: &str, _tier: Tier, _run: u64) -> Config {
-        let prim = match rng.below(14) {
+        // the SIMD build differs from the software build only in BLAKE2b
+        let prim = match if cfg!(feature = "simd") { rng.below(5) } else { rng.below(14) } {
             0..=2 => Prim::GhClassic { outlen: rng.range(16, 64) as usize, keylen: if rng.chance(1, 2) { rng.range(16, 64) as usize } else { 0 } },
             3..=4 => Prim::GhObj { variant: rng.below(4) as u8, keyed: rng.chance(1, 2) },
             5 => Prim::AuthClassic,
